@@ -322,7 +322,7 @@ func init() {
 		Run: func(c *fw.Case) {
 			// the last case is the coverage-guided stage (Go native fuzzing over the same handlers)
 			if c.Tier == "thorough" && c.Index == 5000 {
-				c12Fuzz(c, 600000)
+				c12Fuzz(c, 200000)
 				return
 			}
 			if c.Tier != "thorough" && c.Index == 120 {
